@@ -17,7 +17,7 @@ def run(rep, prog, tier):
     rep.rule('R11.state', 'no hidden state in the anchored modules: no function writes a module-level object, no caching decorator / cached property')
     no_hidden_state(rep, 'R11.state', prog, ['Network/NodalAnalysis/state_space_model.py', 'Circuit/solution.py', 'SignalProcessing/state_space_model.py'])
     rep.rule('R11.lambda', 'Lambda = diag(-C..., +L...) taken from c_values / l_values in the order of the state incidence; invLambda is the element-wise reciprocal; A = invLambda @ S (left multiplication)')
-    rep.rule('R11.space', 'every product / stack that joins the state order (c_values then l_values) joins equal index spaces')
+    rep.rule('R11.space', 'every product, stack and store that involves the state order (c_values then l_values) joins equal index spaces')
     rep.rule('R11.rest', 'the simulation starts from the zero state: lsim is called without an initial state (or with the zero vector passed by TransientSolution)')
     rep.assume('NOT DECIDED: definiteness of W A + A^T W, eigenvalue location, boundedness of simulated energy (run-time values)')
     _lambda_rules(rep, prog)
@@ -84,7 +84,9 @@ def _lambda_rules(rep, prog):
     rep.ob('R11.lambda', 'block:count', len(blocks) == 2, f'value matrix = {dshow(d)}', site)
     # layout of Lambda equals the state space (same order as DQ columns): from E4 -- every join whose spaces involve both value dictionaries
     interps = SR.analyse(prog)
-    lam_obs = [o for o in interps['ssm'].obs if 'ord(c_values)' in o.detail and 'ord(l_values)' in o.detail and o.kind in ('matmul', 'hstack:other-axis', 'vstack:other-axis', 'concatenate:other-axis', 'elementwise', 'block:other-axis')]
+    # every obligation of the builder in which the state order (the order of c_values / l_values) takes part: products and stacks that join it,
+    # and the stores that lay a state row (the incidence of a storage element) at its position
+    lam_obs = [o for o in interps['ssm'].obs if 'ord(c_values)' in o.detail or 'ord(l_values)' in o.detail]
     for i, o in enumerate(lam_obs):
         rep.ob('R11.space', f'{o.kind}#{i}', o.verdict, f'{o.detail} [{o.text}]', o.site)
     if len(lam_obs) < 2:
